@@ -148,7 +148,8 @@ class RefHist:
 
 def selector_grid(dt, delay, tol):
     dt, delay, tol = F(dt), F(delay), F(tol)
-    g = [dt * F(i, 2) for i in range(0, int(2 * delay / dt) + 1)]
+    # quarter steps: a half step cannot tell "nearest" from "previous" (the rules coincide at exactly dt/2)
+    g = [dt * F(i, 4) for i in range(0, int(4 * delay / dt) + 1)]
     g += [delay, delay + tol, delay + dt, F(-1) * dt]
     if tol > 0:
         g += [delay + tol / 2, delay + 2 * tol, tol, -tol]
@@ -299,7 +300,7 @@ def run(rep):
     rep.tally.merge(tally)
     c = tally.counts
     rep.assumptions += [
-        "selectors on the half-step grid plus max+tol/2, max+tol, max+2tol, max+dt, -dt, +-tol; step times 1.0 and 0.5 (dyadic) so grid "
+        "selectors on the quarter-step grid plus max+tol/2, max+tol, max+2tol, max+dt, -dt, +-tol; step times 1.0 and 0.5 (dyadic) so grid "
         "classification is exact; float comparison 1e-5 relative",
         "delta-plus injected current follows the fixed cycle (none, 0.5, -1) over steps rather than being enumerated",
         "batch sample b receives sample 0's history letter rotated by b",
